@@ -34,12 +34,40 @@ Definition subschemas (kvs : list (str * json)) : list json :=
 Fixpoint nodupb (l : list str) : bool :=
   match l with [] => true | x :: r => negb (mem_str x r) && nodupb r end.
 
+Definition nocompb (S0 : json) : bool :=
+  match S0 with
+  | JObj kvs => negb (existsb (fun kv => mem_str (fst kv) composition_keywords) kvs)
+  | _ => true
+  end.
+Definition req_names (kvs : list (str * json)) : list str :=
+  match lookup (s_ "required") kvs with Some j => jstr_list j | None => [] end.
+Definition is_object_node (kvs : list (str * json)) : bool :=
+  match lookup (s_ "type") kvs with Some (JStr t) => str_eqb t (s_ "object") | _ => false end.
+Definition has_comp (kvs : list (str * json)) : bool :=
+  existsb (fun kv => mem_str (fst kv) composition_keywords) kvs.
+
+(* sub-schemas in the order parse_element visits them before the node itself *)
+Definition pre_list (kvs : list (str * json)) : list json :=
+  let get (s : String.string) := lookup (s_ s) kvs in
+  obj_vals (get "properties")
+  ++ (match get "items" with Some (JArr l) => l | Some s => [s] | None => [] end)
+  ++ obj_vals (get "patternProperties") ++ opt_list (get "propertyNames") ++ opt_list (get "contains")
+  ++ filter is_schema (obj_vals (get "dependencies"))
+  ++ opt_list (get "additionalProperties") ++ opt_list (get "additionalItems").
+
 Section Checker.
   Variable cfg : pcfg.
+  Variable objs : bool.       (* are nodes of type "object" (named classes) allowed? *)
 
-  Definition type_not_objectb (kvs : list (str * json)) : bool :=
+  (* every required name of an object node has a declared property whose schema has no
+     composition keyword (so that "has a default" is read off the schema's own keys) *)
+  Definition obj_node_okb (kvs : list (str * json)) : bool :=
+    forallb (fun r => match lookup (s_ "properties") kvs with
+                      | Some (JObj pkvs) => match lookup r pkvs with Some Sp => nocompb Sp | None => false end
+                      | _ => false end) (req_names kvs).
+  Definition type_condb (kvs : list (str * json)) : bool :=
     match lookup (s_ "type") kvs with
-    | Some (JStr t) => negb (str_eqb t (s_ "object"))
+    | Some (JStr t) => if str_eqb t (s_ "object") then objs && obj_node_okb kvs else true
     | Some (JArr ts) => forallb (fun t => match t with JStr x => negb (str_eqb x (s_ "object")) | _ => true end) ts
     | _ => true
     end.
@@ -55,7 +83,7 @@ Section Checker.
 
   Definition node_okb (kvs : list (str * json)) : bool :=
     let get (s : String.string) := lookup (s_ s) kvs in
-    nodupb (keys kvs) && type_not_objectb kvs && lit_cleanb kvs "const" && lit_cleanb kvs "enum" &&
+    nodupb (keys kvs) && type_condb kvs && lit_cleanb kvs "const" && lit_cleanb kvs "enum" &&
     dict_okb true (get "properties") &&
     (match get "properties" with Some (JObj p) => nodupb (map (attr cfg) (keys p)) | _ => true end) &&
     dict_okb true (get "patternProperties") && dict_okb false (get "dependencies") &&
@@ -72,4 +100,49 @@ Section Checker.
       end
     end.
 
+  (* the class names met by the parser, threaded in parse order: None on a repeated name *)
+  Definition own_stepb (kvs : list (str * json)) (u : list str) : option (list str) :=
+    if is_object_node kvs then
+      match obj_title kvs with
+      | Some (JStr (c :: t)) =>
+        let name := title_format (c :: t) in
+        if mem_str name u then None else Some (name :: u)
+      | _ => Some u
+      end
+    else Some u.
+  Definition comp_lists (kvs : list (str * json)) : list json :=
+    flat_map (fun key => arr_list (lookup key kvs)) (c_comp_order cfg).
+
+  Fixpoint walkb (fuel : nat) (u : list str) (S0 : json) : option (list str) :=
+    match fuel with
+    | O => None
+    | S n =>
+      let walksb := fix go (u0 : list str) (l : list json) : option (list str) :=
+          match l with
+          | [] => Some u0
+          | x :: r => match walkb n u0 x with Some u1 => go u1 r | None => None end
+          end in
+      match S0 with
+      | JObj kvs =>
+        match walksb u (pre_list kvs) with
+        | None => None
+        | Some u1 =>
+          match own_stepb kvs u1 with
+          | None => None
+          | Some u2 =>
+            if has_comp kvs then
+              match walksb u2 (comp_lists kvs) with
+              | None => None
+              | Some u3 => walksb u3 (opt_list (lookup (s_ "not") kvs))
+              end
+            else Some u2
+          end
+        end
+      | _ => Some u
+      end
+    end.
+
+  (* the whole premise of the validity theorem, decided *)
+  Definition in_fragment (fuel : nat) (S0 : json) : bool :=
+    plainb fuel S0 && match walkb fuel [] S0 with Some _ => true | None => false end.
 End Checker.
